@@ -33,7 +33,7 @@ META = dict(
     outside=["attempt_timeout_s", "RetryConfig/from_config constructors", "testing helpers"],
 )
 GOALS = ["pair_equal_with_retry", "pair_equal_deferred", "pair_equal_aborted", "pair_equal_exhausted_result",
-         "pair_equal_raise_exception", "breaker_events_equal", "cancel_propagated_both"]
+         "pair_equal_raise_exception", "breaker_events_equal", "cancel_propagated_both", "rejected_both"]
 
 
 def canon(w):
@@ -74,7 +74,8 @@ def run_once(csym, params, entry, with_breaker):
     if with_breaker:
         inner = CircuitBreaker(failure_threshold=1, window_s=100.0, recovery_timeout_s=5.0, clock=lambda: w.clock.now)
         inner.record_failure(EC.TRANSIENT)
-        w.clock.now = w.clock.now + 6.0
+        # "elapsed": the call is admitted as the half-open probe; "open": it is rejected (no breaker record at all)
+        w.clock.now = w.clock.now + (6.0 if with_breaker != "open" else 1.0)
         breaker = SpyBreaker(w, inner)
     w.run(entry, breaker=breaker)
     return w
@@ -93,6 +94,17 @@ def h_pair(sym, params):
         return ("trace_differs", f"{params['ref']} vs {params['entry']}: traces diverge at event {j}: "
                                  f"{t1[j:j + 2]} vs {t2[j:j + 2]}")
     c1, c2 = canon(w1), canon(w2)
+    if wb == "open":
+        # call() delivers the rejection by raising CircuitOpenError, execute() by a not-ok outcome with zero attempts
+        def rejected(w):
+            k, o = w.result
+            if k == "raise":
+                return type(o).__name__ == "CircuitOpenError"
+            return k == "outcome" and (not o.ok) and o.attempts == 0 and type(o.last_exception).__name__ == "CircuitOpenError"
+        if not (rejected(w1) and rejected(w2)):
+            return ("rejection_differs", f"{params['ref']} -> {w1.result}, {params['entry']} -> {w2.result}")
+        sym.cover("rejected_both")
+        return None
     if c1 != c2:
         return ("result_differs", f"{params['ref']} delivered {c1}, {params['entry']} delivered {c2}")
     nops = len([e for e in w1.trace if e[0] == "op"])
@@ -165,7 +177,11 @@ def jobs(tier):
         out.append(dict(name=f"timed:{entry}", harness="rv.props.c12:h_pair",
                         params=dict(N=N, kinds=["ok", "exc", "res"], classes=["TRANSIENT"], timed=True, strat=dict(raw="real"),
                                     ref="retry.call", entry=entry), max_wall_s=wall, weight=2))
-    for entry in ["policy.execute", "apolicy.call", "apolicy.execute"]:
+    for entry in ["policy.execute", "apolicy.call", "apolicy.execute", "policy.context", "apolicy.context"]:
         out.append(dict(name=f"breaker:{entry}", harness="rv.props.c12:h_pair",
                         params=dict(base, N=N, ref="policy.call", entry=entry, breaker=True), max_wall_s=wall, weight=2))
+        # a rejected request: the same breaker interactions (one refused admission, nothing else) on every entry point
+        out.append(dict(name=f"breaker-open:{entry}", harness="rv.props.c12:h_pair",
+                        params=dict(base, N=1, ref="policy.execute" if entry != "policy.execute" else "policy.call", entry=entry,
+                                    breaker="open"), max_wall_s=wall, weight=1))
     return out
